@@ -131,8 +131,20 @@ func nestBomb(shape, depth int) string {
 	return strings.Repeat(s.open, depth) + s.mid + strings.Repeat(s.close, depth)
 }
 
+// statements that are almost valid and run into the hand-written checks of the
+// parser (as opposed to a token mismatch), at the very end of the input or not
+var nearMisses = []string{
+	"for i, j <- fromto(0, 3) write(i)", "for i <- a, b 1", "for i, j <- x {\n1\n}", "for i, j, k <- a, b {\nwrite(i)\n}", "f = () -> for a, b <- g() 1",
+	"x = for i, j <- a 1", "if true for i, j <- a 1", "{\nfor i, j <- a 1\n}", "for i <- a, b, c {\nfor j, k <- d 1\n}",
+	"true = 1", "if = 2", "x = return", "a = yield", "f(1,)", "[1,]", "[,1]", "(,) -> 1", "() ->", "x[1:]", "x[:1]", "x[]", "1 2 +", "f(", "-", "!", "#",
+}
+
 func genFrontEndInput(t *rapid.T) (src string, nest int) {
-	switch rapid.IntRange(0, 9).Draw(t, "kind") {
+	switch rapid.IntRange(0, 10).Draw(t, "kind") {
+	case 10:
+		pre := rapid.SampledFrom([]string{"", "", "a = 1\n", "\n", "; c\n", " "}).Draw(t, "pre")
+		post := rapid.SampledFrom([]string{"", "", " ", "\n", " ; c", "\n\n", "\nb = 2"}).Draw(t, "post")
+		return pre + rapid.SampledFrom(nearMisses).Draw(t, "nearmiss") + post, 0
 	case 0, 1, 2, 3, 4: // token soup
 		n := rapid.IntRange(0, 14).Draw(t, "n")
 		var sb strings.Builder
@@ -371,8 +383,15 @@ func c06BinaryNoExec(t *testing.T, rec *ev.Recorder, n int, seed int) {
 // replSafe tells whether text can be piped to the REPL: its line editor (the
 // third-party readline) interprets control bytes as editing keys (NUL at the
 // start of a line is its end-of-input signal, TAB is completion), which is
-// terminal behaviour outside the listed properties.
+// terminal behaviour outside the listed properties. Lines of tens of kilobytes
+// take it minutes.
 func replSafe(s string) bool {
+	// very long lines: the line editor handles a line in quadratic time
+	for _, l := range strings.Split(s, "\n") {
+		if len(l) > 2000 {
+			return false
+		}
+	}
 	for i := 0; i < len(s); i++ {
 		if (s[i] < 0x20 && s[i] != '\n') || s[i] == 0x7f {
 			return false
